@@ -506,6 +506,110 @@ def CanStep (cfg : Cfg) (s : State) : Prop := ∃ l, l.isEnv = false ∧ enabled
 def BlockedJob (cfg : Cfg) (s : State) : Prop :=
   ∃ j ∈ s.wRun, cfg.blocking j = true ∧ (s.callers j.grp).cancelled = false ∧ s.stopped = false
 
+/-! ### direct use of the public API: the result store WITH its map entries, and `Queue`
+
+`RunJobs` is one client of the worker group; `Do`, `NotifyResult`, `Results`, `RemoveGroup` and the type
+`Queue` are exported and can be driven directly.  A direct client can do what `RunJobs` never does:
+call `RemoveGroup(g)` while a job of group `g` is still running.  `storeResult` then finds no entry for
+the group in `resultData` / `resultNotify` and takes its two `if !ok` arms (re-create the entry), which
+no run of `RunJobs` reaches (`returned_all_delivered_once`: when `wait.Wait()` has returned nothing of the
+group is left in the pipeline).  The transition system above abstracts from map-entry existence; the
+model below keeps it (`none` = no entry), says what must happen on those arms, and `Props/C14.lean`
+proves that it refines the entry-less view the transition system uses (`direct_spec_of_model`). -/
+
+/-- `resultData` / `resultNotify` with explicit map entries: `none` = no entry for the group -/
+structure Store where
+  data   : Nat → Option (List Nat) := fun _ => none   -- results of the group, newest first
+  notify : Nat → Option Bool := fun _ => none         -- the group's channel (cap 1) exists; it holds a token
+
+def setAt {α : Type} (f : Nat → α) (g : Nat) (v : α) : Nat → α := fun k => if k = g then v else f k
+
+/-- `Do`'s `wg.mu` section: `if _, ok := m[group]; !ok { create }` for both maps -/
+def Store.ensure (st : Store) (g : Nat) : Store :=
+  { data := if (st.data g).isSome then st.data else setAt st.data g (some []),
+    notify := if (st.notify g).isSome then st.notify else setAt st.notify g (some false) }
+
+/-- the data map after `storeResult`'s first `if !ok` arm (`found` = the `ok` of the map read) -/
+def Store.dataEnsured (st : Store) (g : Nat) (found : Bool) : Nat → Option (List Nat) :=
+  if !found then setAt st.data g (some []) else st.data
+
+/-- the notify map after `storeResult`'s second `if !ok` arm -/
+def Store.notifyEnsured (st : Store) (g : Nat) (found : Bool) : Nat → Option Bool :=
+  if !found then setAt st.notify g (some false) else st.notify
+
+/-- `storeResult(group)(r)`: re-create missing entries, prepend the result, non-blocking send of a token
+(a missing entry would read as a nil slice — the prepend works — and as a nil channel — the send takes
+the `default` arm and the token is lost: that is what the second arm prevents) -/
+def Store.store (st : Store) (g r : Nat) : Store :=
+  let d := st.dataEnsured g (st.data g).isSome
+  let n := st.notifyEnsured g (st.notify g).isSome
+  { data := setAt d g (some (r :: (d g).getD [])),
+    notify := setAt n g ((n g).map fun _ => true) }
+
+/-- `Results(group)`: hands out the group's results oldest first and leaves an empty entry -/
+def Store.results (st : Store) (g : Nat) : List Nat × Store :=
+  (((st.data g).getD []).reverse, { st with data := setAt st.data g (some []) })
+
+/-- `select { case <-wg.NotifyResult(group): true; default: false }`: `NotifyResult` creates a missing channel -/
+def Store.poll (st : Store) (g : Nat) : Bool × Store :=
+  ((st.notify g).getD false, { st with notify := setAt st.notify g (some false) })
+
+/-- `RemoveGroup(group)` -/
+def Store.remove (st : Store) (g : Nat) : Store :=
+  { data := setAt st.data g none, notify := setAt st.notify g none }
+
+/-- `Queue.Pop`: error on the empty queue (which stays as it is), otherwise the head -/
+def queuePop (q : List Nat) : Option Nat × List Nat :=
+  match q with
+  | [] => (none, [])
+  | v :: r => (some v, r)
+
+/-- one call of a direct client (the harness waits until every goroutine is durably blocked after each) -/
+inductive DOp
+  | submit (g v : Nat)          -- `Do(ctx, job v, g)` with a live ctx; the job function waits for the harness
+  | submitCancelled (g : Nat)   -- `Do` with a cancelled ctx: refused before anything is touched
+  | finish (g v : Nat)          -- the harness lets the RUNNING job function `v` (of group `g`) return
+  | remove (g : Nat) | results (g : Nat) | poll (g : Nat)
+  | qAdd (vs : List Nat) | qPop | qLen      -- a `Queue` value of its own
+deriving DecidableEq, Repr, Inhabited
+
+inductive DOut
+  | accepted (running : Nat)    -- `Do` returned nil; number of job functions running afterwards
+  | refused                     -- `Do` returned an error
+  | finished (running : Nat)
+  | unit
+  | vals (l : List Nat)
+  | token (b : Bool)
+  | popped (v : Option Nat)
+  | len (n : Nat)
+deriving DecidableEq, Repr, Inhabited
+
+structure DState where
+  store : Store := {}
+  outstanding : Nat := 0        -- accepted and not finished (running or queued behind busy workers)
+  queue : List Nat := []
+
+/-- one direct call on a group with `workers` workers (jobs start in FIFO order as workers are free, so
+`min workers outstanding` job functions are running) -/
+def dstep (workers : Nat) (d : DState) : DOp → DOut × DState
+  | .submit g _ =>
+    (.accepted (min workers (d.outstanding + 1)),
+     { d with store := d.store.ensure g, outstanding := d.outstanding + 1 })
+  | .submitCancelled _ => (.refused, d)
+  | .finish g v =>
+    (.finished (min workers (d.outstanding - 1)),
+     { d with store := d.store.store g v, outstanding := d.outstanding - 1 })
+  | .remove g => (.unit, { d with store := d.store.remove g })
+  | .results g => (.vals (d.store.results g).1, { d with store := (d.store.results g).2 })
+  | .poll g => (.token (d.store.poll g).1, { d with store := (d.store.poll g).2 })
+  | .qAdd vs => (.unit, { d with queue := d.queue ++ vs })
+  | .qPop => (.popped (queuePop d.queue).1, { d with queue := (queuePop d.queue).2 })
+  | .qLen => (.len d.queue.length, d)
+
+def drun (workers : Nat) : DState → List DOp → List DOut
+  | _, [] => []
+  | d, op :: ops => (dstep workers d op).1 :: drun workers (dstep workers d op).2 ops
+
 /-! ### the pre-fix witness -/
 
 /-- the pre-fix code, one worker, one caller with one job -/
